@@ -47,7 +47,8 @@ class Pool:
                 return False
         self.classes = {"DirectedEdge": E["DirectedEdge"], "UnDirectedEdge": E["UnDirectedEdge"], "OtherLink": OtherLink,
                         "SubDirected": SubDirected}
-        self.V = [E["Vertex"](), E["Vertex"](), FalsyVertex()]
+        # two vertices share a user-chosen uid (uids are labels, not identities: nothing may key on them)
+        self.V = [E["Vertex"](uid=7), E["Vertex"](uid=7), FalsyVertex()]
         self.U = [E["Universe"](), E["Universe"]()]
         self.L = []          # links
         self.W = [self.U[0].laws, self.U[1].laws, E["UniverseLaws"]()]   # law sets
@@ -765,9 +766,36 @@ def oracle_C05(P):
                     Vx.NEIGHBOR_CACHING = flag
                 if got != want and not (got != "raises" and want != "raises" and len(got) == len(want) and all(x is y for x, y in zip(got, want))):
                     raise PropertyViolation(f"C05: cached neighbors({d}) differ from the recomputed ones")
+    # short-lived filter functions: each is dropped right after its query, so the interpreter re-uses their addresses; an
+    # answer memoised for one of them must never be served to another
+    V0 = P.V[0]
+    for v in P.V:
+        for t in range(6):
+            f = _temp_filter(t * 7 % 3 == 0, V0)
+            try:
+                got = nb(v, 0, 1, f)
+                Vx.NEIGHBOR_CACHING = False
+                want = nb(v, 0, 1, f)
+            except (IndexError, AttributeError):
+                got = want = None
+            finally:
+                Vx.NEIGHBOR_CACHING = flag
+            del f
+            if got is not None and not (len(got) == len(want) and all(x is y for x, y in zip(got, want))):
+                raise PropertyViolation("C05: neighbors() with a short-lived filter function differs from the recomputed answer")
+
+
+def _temp_filter(flag, v0):
+    return lambda e, w: flag or w is v0
 
 
 ORACLES = {"C01": oracle_C01, "C02": oracle_C02, "C19": oracle_C19}
+
+
+def oracles_for(pid):
+    if pid == "C05":
+        return [oracle_C05]
+    return [ORACLES[p] for p in ORACLES if p == pid or pid in ("C03", "C05", "C12")]
 GROUPS = {
     "C01": ("assoc", "explicit"), "C02": ("member",), "C03": ("assoc", "explicit", "member"), "C19": ("laws", "snapshot"),
     "C04": ("assoc", "explicit", "query"), "C09": ("assoc", "explicit", "query"),
@@ -925,9 +953,7 @@ def explore(pid, budget_s=30.0, seed=0, repo_root="/repo", only=None, max_len=6,
     mon, mods = fresh_world(repo_root, only)
     rng = random.Random(seed)
     groups = GROUPS.get(pid, ("assoc", "explicit", "member", "laws"))
-    oracles = [ORACLES[p] for p in ORACLES if p == pid or pid in ("C03", "C05", "C12")]
-    if pid == "C05":
-        oracles = [oracle_C05]
+    oracles = oracles_for(pid)
     n = 0
     distinct = set()
     failure = None
@@ -998,7 +1024,7 @@ def replay(case, repo_root=None):
     repo_root = repo_root or os.environ.get("PYVC_REPO", "/repo")
     mon, mods = fresh_world(repo_root)
     pid = case["property"]
-    oracles = [ORACLES[p] for p in ORACLES if p == pid or pid in ("C03", "C05", "C12")]
+    oracles = oracles_for(pid)
     hist = [tuple(s) for s in case["history"]]
     r = run_history(hist, mon, mods, oracles)
     print("history:")
